@@ -83,7 +83,7 @@ claimed.update({
 })
 
 claimed.update({
-    "C14": dict(text="Sidecar route configurations only (thin): the real BuildSidecarOutboundVirtualHosts on a real PushContext/SidecarScope for every pair (thorough: triple) of service hostnames and an optional VirtualService host drawn from near-colliding shapes: "
+    "C14": dict(text="Gateway listeners: the real mergeGateways keeps the SNI hosts of TLS servers behind one listening port and bind unique for every pair/triple of servers and port translation. Sidecar route configurations (thin): the real BuildSidecarOutboundVirtualHosts on a real PushContext/SidecarScope for every pair (thorough: triple) of service hostnames and an optional VirtualService host drawn from near-colliding shapes: "
                      "virtual-host names unique, domains unique within the route configuration, non-empty, and every service routable by its own hostname; plus the domain kernel (generateVirtualHostDomains, GenerateAltVirtualHosts, dedupeDomains) "
                      "with symbolic hostnames decided by the solver: domains of distinct services disjoint after de-duplication and a service never loses its own hostname.",
                 note="Outside (stated): listeners and filter-chain matches, clusters, gateways, EnvoyFilter patches, weights, protoc-gen-validate rules, EDS/RDS closure, objects that bypass validation. This is a partial check of C14.", ref="§4 C14"),
